@@ -215,7 +215,7 @@ Qed.
    end, its region holds the block's value, nothing is completed yet (what happens next depends on the frame: a plain scope
    completes, a loop goes round).  exitWith: the frame is gone and the handler's value stands on what was below it. *)
 Definition BodyEnds (s:sstate) (reg:rvalue) (code:list instr) (out:bout) (s':sstate) : Prop :=
-  forall r c f fc rest below pre, AtM s reg r c f (fc :: rest) below ->
+  forall r c f fc rest below pre, AtM s reg r c f (fc :: rest) below -> Fresh c below ->
     f_code f = pre ++ code -> f_pos f = length pre -> f_base fc <= length below ->
     match out with
     | BNorm reg' => exists r' c' f' rest', Steps r r' /\ AtM s' reg' r' c' f' rest' below /\ moved f f' /\
@@ -225,7 +225,7 @@ Definition BodyEnds (s:sstate) (reg:rvalue) (code:list instr) (out:bout) (s':sst
     end.
 (* for a plain scope (no exit behaviour) both outcomes end with the frame gone and one value handed over *)
 Definition ScopeEnds (s:sstate) (reg:rvalue) (code:list instr) (out:bout) (s':sstate) : Prop :=
-  forall r c f fc rest below pre, AtM s reg r c f (fc :: rest) below ->
+  forall r c f fc rest below pre, AtM s reg r c f (fc :: rest) below -> Fresh c below ->
     f_code f = pre ++ code -> f_pos f = length pre -> f_exit f = None -> f_base fc <= length below ->
     exists r' c' fc' rest', Steps r r' /\ Mach (pop_scope s') r' c' fc' rest' /\
       c_values c' = cv (val_of out) :: below /\ kept fc fc' /\ Forall2 kept rest rest'.
@@ -287,12 +287,12 @@ Proof.
     + split; [cbn; lia|rewrite defects_upd_cur; exact D].
   - cbn. f_equal. destruct top as [|x top]; cbn in RR.
     + rewrite RR. reflexivity.
-    + destruct RR as [-> NN]. destruct reg; reflexivity.
+    + destruct RR as (-> & NN & _). destruct reg; reflexivity.
 Qed.
 
 Lemma scope_ends_of_body s reg code out s' : BodyEnds s reg code out s' -> ScopeEnds s reg code out s'.
 Proof.
-  intros BE r c f fc rest below pre A EC EP EX HB. specialize (BE r c f fc rest below pre A EC EP HB).
+  intros BE r c f fc rest below pre A FR EC EP EX HB. specialize (BE r c f fc rest below pre A FR EC EP HB).
   destruct out as [reg'|v]; [|exact BE].
   destruct BE as (r1 & c1 & f1 & rest1 & S1 & A1 & MV1 & P1 & K1).
   inversion K1 as [|fa fc1 ra rest1' Ka Kb Ea Eb]; subst.
@@ -319,8 +319,8 @@ Proof.
         split; [apply vars_match_mvars|split; [|reflexivity]]. cbn. unfold cur_ns. rewrite EF. inversion F as [|sc f0 scs fs (V & NS & BB) F' E1 E2]; subst.
         unfold cur_ns_of. rewrite <- E1. exact NS.
       + split; [cbn; lia|exact D].
-    - split; [reflexivity|]. exists [VNil]. split; [reflexivity|]. split; [reflexivity|discriminate]. }
-  exact (SE r1 c1 nf fc rest (c_values c0) [] A eq_refl eq_refl eq_refl B).
+    - split; [reflexivity|]. exists [VNil]. split; [reflexivity|]. split; [reflexivity|]. split; [discriminate|left; reflexivity]. }
+  exact (SE r1 c1 nf fc rest (c_values c0) [] A (or_intror eq_refl) eq_refl eq_refl eq_refl B).
 Qed.
 
 Lemma compile_block_cons2 st st2 b : compile_block (st :: st2 :: b) = compile_stmt st ++ IEnd :: compile_block (st2 :: b).
@@ -667,7 +667,7 @@ Proof. reflexivity. Qed.
 
 Definition ForRuns (var:string) (to st:Z) (s:sstate) (x:Z) (first:bool) (body:list stmt) (acc':rvalue) (s':sstate) : Prop :=
   forall r c f fc frest below,
-    AtM (enter s [(lower var, RNum x)]) (if first then RNil else RNone) r c f (fc :: frest) below ->
+    AtM (enter s [(lower var, RNum x)]) (if first then RNil else RNone) r c f (fc :: frest) below -> Fresh c below ->
     f_code f = compile_block body -> f_pos f = 0 -> f_exit f = Some (BFor var to st) -> f_die f = false ->
     leaf_first body -> f_ns f = f_ns fc -> f_base fc <= length below ->
     exists r' c' fc' rest', Steps r r' /\ r' <> r /\ Mach s' r' c' fc' rest' /\ c_values c' = cv acc' :: below /\
@@ -680,7 +680,7 @@ Definition IterRuns (k:lkind) (s:sstate) (arr:list rvalue) (i:nat) (body:list st
   | [] => True
   | x :: rest0 =>
     forall r c f fc frest below allarr b,
-      AtM (enter s (kvars k i x)) (match i with O => RNil | _ => RNone end) r c f (fc :: frest) below ->
+      AtM (enter s (kvars k i x)) (match i with O => RNil | _ => RNone end) r c f (fc :: frest) below -> Fresh c below ->
       f_code f = compile_block body -> f_pos f = 0 -> f_exit f = Some b -> kb k allarr i acc b -> f_die f = false ->
       skipn i allarr = x :: rest0 -> leaf_first body -> f_ns f = f_ns fc -> f_base fc <= length below ->
       exists r' c' fc' rest', Steps r r' /\ r' <> r /\ Mach s' r' c' fc' rest' /\ c_values c' = cv acc' :: below /\
@@ -974,7 +974,8 @@ Proof.
           split; [apply kvars0_match|split; [|reflexivity]].
           cbn. destruct FM as (_ & NS & _). unfold cur_ns_of. rewrite <- E1. exact NS.
         + split; [cbn; lia|rewrite defects_upd_cur; exact D2].
-      - split; [reflexivity|]. exists [VNil]. split; [reflexivity|]. split; [reflexivity|discriminate]. }
+      - split; [reflexivity|]. exists [VNil]. split; [reflexivity|]. split; [reflexivity|]. split; [discriminate|left; reflexivity]. }
+    { right. reflexivity. }
     { reflexivity. } { reflexivity. } { reflexivity. } { apply kb_init. } { reflexivity. } { reflexivity. } { exact LF. } { reflexivity. }
     { cbn. rewrite (moved_base _ _ MV2), (moved_base _ _ MV1); exact B. }
     eexists _, _, fc4, rest4. split; [eapply steps_trans; [exact S1|eapply steps_trans; [exact S2|eapply steps_trans; [exact S3|exact S4]]]|].
@@ -1008,7 +1009,8 @@ Proof.
           split; [apply kvars0_match|split; [|reflexivity]].
           cbn. destruct FM as (_ & NS & _). unfold cur_ns_of. rewrite <- E1. exact NS.
         + split; [cbn; lia|rewrite defects_upd_cur; exact D2].
-      - split; [reflexivity|]. exists [VNil]. split; [reflexivity|]. split; [reflexivity|discriminate]. }
+      - split; [reflexivity|]. exists [VNil]. split; [reflexivity|]. split; [reflexivity|]. split; [discriminate|left; reflexivity]. }
+    { right. reflexivity. }
     { reflexivity. } { reflexivity. } { reflexivity. } { apply kb_init. } { reflexivity. } { reflexivity. } { exact LF. } { reflexivity. }
     { cbn. rewrite (moved_base _ _ MV2), (moved_base _ _ MV1); exact B. }
     eexists _, _, fc4, rest4. split; [eapply steps_trans; [exact S1|eapply steps_trans; [exact S2|eapply steps_trans; [exact S3|exact S4]]]|].
@@ -1128,7 +1130,8 @@ Proof.
           split; [apply (vars_match_mvars [(lower var, RNum fr)])|split; [|reflexivity]].
           cbn. destruct FM as (_ & NS & _). unfold cur_ns_of. rewrite <- E1. exact NS.
         + split; [cbn; lia|rewrite defects_upd_cur; exact D2].
-      - split; [reflexivity|]. exists [VNil]. split; [reflexivity|]. split; [reflexivity|discriminate]. }
+      - split; [reflexivity|]. exists [VNil]. split; [reflexivity|]. split; [reflexivity|]. split; [discriminate|left; reflexivity]. }
+    { right. reflexivity. }
     { reflexivity. } { reflexivity. } { reflexivity. } { reflexivity. } { exact LF. } { reflexivity. }
     { cbn. rewrite (moved_base _ _ MV2), (moved_base _ _ MV1); exact B. }
     eexists _, _, fc4, rest4. split; [eapply steps_trans; [exact S1|eapply steps_trans; [exact S2|eapply steps_trans; [exact S3|exact S4]]]|].
@@ -1147,13 +1150,13 @@ Proof.
     exists r2, c2, f2, rest2. split; [eapply steps_trans; eassumption|]. split; [exact M2|].
     split; [rewrite EV2, EV1, <- app_assoc; reflexivity|]. split; [eapply moved_trans; eassumption|].
     split; [rewrite P2, P1; lia|eapply kept_all_trans; eassumption].
-  - (* statement: expression *) intros s reg e v s1 HE IHe r c f rest below pre post (MA & LB & top & EV & RR) EC EP.
+  - (* statement: expression *) intros s reg e v s1 HE IHe r c f rest below pre post (MA & LB & top & EV & RR) FR EC EP.
     cbn [compile_stmt] in *.
     post_intro (IHe r c f rest pre post MA EC EP) r1 c1 f1 rest1 S1 M1 EV1 MV1 P1 K1.
     exists r1, c1, f1, rest1. split; [exact S1|]. split; [|split; [exact MV1|split; [exact P1|exact K1]]].
     split; [exact M1|]. split; [rewrite (moved_base _ _ MV1); exact LB|]. exists (cv v :: top). split; [rewrite EV1, EV; reflexivity|].
-    split; [reflexivity|]. exact (zev_not_none _ _ _ _ HE).
-  - (* statement: x = e *) intros s reg n e v s1 NN HE IHe NV r c f rest below pre post (MA & LB & top & EV & RR) EC EP.
+    split; [reflexivity|]. split; [exact (zev_not_none _ _ _ _ HE)|exact (fresh_under c top below EV FR)].
+  - (* statement: x = e *) intros s reg n e v s1 NN HE IHe NV r c f rest below pre post (MA & LB & top & EV & RR) FR EC EP.
     cbn [compile_stmt] in *. rewrite app_length. cbn [length]. rewrite <- app_assoc in EC.
     post_intro (IHe r c f rest pre ([IAssign n] ++ post) MA EC EP) r1 c1 f1 rest1 S1 M1 EV1 MV1 P1 K1.
     destruct (after_operands_code f f1 pre _ _ MV1 EC EP P1) as [EC1 EP1].
@@ -1163,7 +1166,7 @@ Proof.
     exists r2, c2, f2, rest2. split; [eapply steps_trans; eassumption|]. split.
     + split; [exact M2|]. split; [rewrite (moved_base _ _ MV2), (moved_base _ _ MV1); exact LB|]. exists top. split; [rewrite EV2; exact EV|exact RR].
     + split; [eapply moved_trans; eassumption|]. split; [rewrite P2, P1; lia|eapply kept_all_trans; eassumption].
-  - (* statement: private _x = e *) intros s reg n e v s1 NN HE IHe NV r c f rest below pre post (MA & LB & top & EV & RR) EC EP.
+  - (* statement: private _x = e *) intros s reg n e v s1 NN HE IHe NV r c f rest below pre post (MA & LB & top & EV & RR) FR EC EP.
     cbn [compile_stmt] in *. rewrite app_length. cbn [length]. rewrite <- app_assoc in EC.
     post_intro (IHe r c f rest pre ([IAssignLocal n] ++ post) MA EC EP) r1 c1 f1 rest1 S1 M1 EV1 MV1 P1 K1.
     destruct (after_operands_code f f1 pre _ _ MV1 EC EP P1) as [EC1 EP1].
@@ -1173,23 +1176,23 @@ Proof.
     exists r2, c2, f2, rest2. split; [eapply steps_trans; eassumption|]. split.
     + split; [exact M2|]. split; [rewrite (moved_base _ _ MV2), (moved_base _ _ MV1); exact LB|]. exists top. split; [rewrite EV2; exact EV|exact RR].
     + split; [eapply moved_trans; eassumption|]. split; [rewrite P2, P1; lia|eapply kept_all_trans; eassumption].
-  - (* empty block *) intros s reg r c f fc rest below pre A EC EP HB.
+  - (* empty block *) intros s reg r c f fc rest below pre A FR EC EP HB.
     unfold compile_block in EC. cbn [compile_block_from] in EC. rewrite app_nil_r in EC.
     exists r, c, f, (fc :: rest). split; [apply StepsRefl|]. split; [exact A|]. split; [apply moved_refl|]. split; [rewrite EP, EC; reflexivity|apply kept_all_refl].
-  - (* last statement *) intros s reg st reg1 s1 HS IHs r c f fc rest below pre A EC EP HB.
+  - (* last statement *) intros s reg st reg1 s1 HS IHs r c f fc rest below pre A FR EC EP HB.
     unfold compile_block in EC. cbn [compile_block_from app] in EC.
-    destruct (IHs r c f (fc :: rest) below pre [] A EC EP) as (r1 & c1 & f1 & rest1 & S1 & A1 & MV1 & P1 & K1).
+    destruct (IHs r c f (fc :: rest) below pre [] A FR EC EP) as (r1 & c1 & f1 & rest1 & S1 & A1 & MV1 & P1 & K1).
     exists r1, c1, f1, rest1. split; [exact S1|]. split; [exact A1|]. split; [exact MV1|]. split; [|exact K1].
     rewrite P1, EP, EC, !app_length. cbn. lia.
-  - (* statement; rest of the block *) intros s reg st reg1 s1 st2 rest0 out s' HS IHs HB IHb r c f fc rest below pre A EC EP HBf.
+  - (* statement; rest of the block *) intros s reg st reg1 s1 st2 rest0 out s' HS IHs HB IHb r c f fc rest below pre A FR EC EP HBf.
     rewrite compile_block_cons2 in EC.
-    destruct (IHs r c f (fc :: rest) below pre _ A EC EP) as (r1 & c1 & f1 & rest1 & S1 & A1 & MV1 & P1 & K1).
+    destruct (IHs r c f (fc :: rest) below pre _ A FR EC EP) as (r1 & c1 & f1 & rest1 & S1 & A1 & MV1 & P1 & K1).
     inversion K1 as [|fa fc1 ra rest1' Ka Kb Ea Eb]; subst.
     assert (EC1 : f_code f1 = (pre ++ compile_stmt st) ++ IEnd :: compile_block (st2 :: rest0)).
     { rewrite (moved_code _ _ MV1), EC, <- app_assoc. reflexivity. }
     assert (EP1 : f_pos f1 = length (pre ++ compile_stmt st)) by (rewrite app_length, P1, EP; reflexivity).
-    destruct (end_run s1 reg1 r1 c1 f1 (fc1 :: rest1') below _ _ A1 EC1 EP1) as (r2 & c2 & S2 & A2).
-    specialize (IHb r2 c2 (set_pos f1 (S (f_pos f1))) fc1 rest1' below (pre ++ compile_stmt st ++ [IEnd]) A2).
+    destruct (end_run s1 reg1 r1 c1 f1 (fc1 :: rest1') below _ _ A1 EC1 EP1) as (r2 & c2 & S2 & A2 & FR2).
+    specialize (IHb r2 c2 (set_pos f1 (S (f_pos f1))) fc1 rest1' below (pre ++ compile_stmt st ++ [IEnd]) A2 FR2).
     assert (Q1 : f_code (set_pos f1 (S (f_pos f1))) = (pre ++ compile_stmt st ++ [IEnd]) ++ compile_block (st2 :: rest0))
       by (cbn [set_pos f_code]; rewrite EC1, <- !app_assoc; reflexivity).
     assert (Q2 : f_pos (set_pos f1 (S (f_pos f1))) = length (pre ++ compile_stmt st ++ [IEnd]))
@@ -1206,7 +1209,7 @@ Proof.
       exists r3, c3, fc3, rest3. split; [eapply steps_trans; [exact S1|eapply steps_trans; [exact S2|exact S3]]|].
       split; [exact M3|]. split; [exact EV3|]. split; [eapply kept_trans; eassumption|eapply kept_all_trans; eassumption].
   - (* if true exitWith {..}: the scope ends here *)
-    intros s reg n l x b s1 s2 out s3 rest0 HN HL IHl HX IHx HB IHb r c f fc rest below pre (MA & LB & top & EV & RR) EC EP HBf.
+    intros s reg n l x b s1 s2 out s3 rest0 HN HL IHl HX IHx HB IHb r c f fc rest below pre (MA & LB & top & EV & RR) FR EC EP HBf.
     rewrite compile_block_exit in EC.
     post_intro (IHl r c f (fc :: rest) pre _ MA EC EP) r1 c1 f1 rest1 S1 M1 EV1 MV1 P1 K1.
     destruct (after_operands_code f f1 pre _ _ MV1 EC EP P1) as [EC1 EP1].
@@ -1231,8 +1234,8 @@ Proof.
           constructor; [|constructor; [exact FM|exact F']].
           split; [intros k; reflexivity|split; [|reflexivity]]. cbn. destruct FM as (_ & NS & _). unfold cur_ns_of. rewrite <- E1. exact NS.
         + split; [cbn; lia|rewrite defects_upd_cur; exact D2].
-      - split; [reflexivity|]. exists [VNil]. split; [reflexivity|]. split; [reflexivity|discriminate]. }
-    destruct (scope_ends_of_body _ _ _ _ _ IHb _ _ nf fdie (fc2 :: rest2') (c_values c) [] A3 eq_refl eq_refl eq_refl) as (r4 & c4 & fd4 & rest4 & S4 & M4 & EV4 & K4 & KR4).
+      - split; [reflexivity|]. exists [VNil]. split; [reflexivity|]. split; [reflexivity|]. split; [discriminate|left; reflexivity]. }
+    destruct (scope_ends_of_body _ _ _ _ _ IHb _ _ nf fdie (fc2 :: rest2') (c_values c) [] A3 (or_intror eq_refl) eq_refl eq_refl eq_refl) as (r4 & c4 & fd4 & rest4 & S4 & M4 & EV4 & K4 & KR4).
     { cbn. rewrite (moved_base _ _ MV2), (moved_base _ _ MV1); exact B. }
     inversion KR4 as [|fb fc4 rb rest4' Kc Kd Ec Ed]; subst.
     destruct M4 as (G4 & EF4 & MM4 & B4 & D4).
@@ -1249,8 +1252,8 @@ Proof.
     + split; [reflexivity|]. split; [eapply kept_trans; eassumption|eapply kept_all_trans; eassumption].
   - (* no more rounds *) intros k s i body acc. exact I.
   - (* a round, then the rest *) intros k s x rest0 i body acc reg s1 acc1 acc' s' HB IHb KS KO HI IHi.
-    cbn [IterRuns]. intros r c f fc frest below allarr b A EC EP EX KB ED SK LF ENS HBf.
-    specialize (IHb r c f fc frest below [] A EC EP HBf). cbn in IHb.
+    cbn [IterRuns]. intros r c f fc frest below allarr b A FR EC EP EX KB ED SK LF ENS HBf.
+    specialize (IHb r c f fc frest below [] A FR EC EP HBf). cbn in IHb.
     destruct IHb as (r1 & c1 & f1 & rest1 & S1 & A1 & MV1 & P1 & K1).
     inversion K1 as [|fa fc1 ra frest1 Ka Kb Ea Eb]; subst.
     destruct A as ((G0 & EF0 & _) & _).
@@ -1294,6 +1297,7 @@ Proof.
               unfold cur_ns_of, pop_scope. cbn. rewrite <- E1. cbn. rewrite <- E3. exact NS2.
           + split; [cbn; rewrite LB1; lia|rewrite defects_upd_cur; exact D1].
         - split; [cbn; exact LB1|]. exists []. split; [reflexivity|reflexivity]. }
+      { left. reflexivity. }
       { cbn. rewrite (moved_code _ _ MV1). exact EC. } { reflexivity. } { reflexivity. } { exact KB'. } { cbn. exact XD. }
       { exact SK1. } { exists i0, code'. split; assumption. }
       { cbn. rewrite (moved_ns _ _ MV1), ENS, (kept_ns _ _ Ka). reflexivity. }
@@ -1304,8 +1308,8 @@ Proof.
         rewrite EF4, EF0. cbn. rewrite (forall2_length _ _ _ KR4), (forall2_length _ _ _ Kb). lia. }
       split; [exact M4|]. split; [exact EV4|]. split; [eapply kept_trans; eassumption|eapply kept_all_trans; eassumption].
   - (* a round after which the loop stops (findIf found its element) *) intros k s x rest0 i body acc reg s1 acc1 HB IHb KS KO.
-    cbn [IterRuns]. intros r c f fc frest below allarr b A EC EP EX KB ED SK LF ENS HBf.
-    specialize (IHb r c f fc frest below [] A EC EP HBf). cbn in IHb.
+    cbn [IterRuns]. intros r c f fc frest below allarr b A FR EC EP EX KB ED SK LF ENS HBf.
+    specialize (IHb r c f fc frest below [] A FR EC EP HBf). cbn in IHb.
     destruct IHb as (r1 & c1 & f1 & rest1 & S1 & A1 & MV1 & P1 & K1).
     inversion K1 as [|fa fc1 ra frest1 Ka Kb Ea Eb]; subst.
     destruct A as ((G0 & EF0 & _) & _).
@@ -1327,16 +1331,16 @@ Proof.
       - split; [cbn; rewrite (kept_base _ _ Ka); lia|rewrite defects_upd_cur; exact D1]. }
     split; [cbn; rewrite HD; reflexivity|split; assumption].
   - (* a round left by exitWith: the loop is over *) intros k s x rest0 i body acc v s1 HB IHb.
-    cbn [IterRuns]. intros r c f fc frest below allarr b A EC EP EX KB ED SK LF ENS HBf.
-    specialize (IHb r c f fc frest below [] A EC EP HBf). cbn in IHb.
+    cbn [IterRuns]. intros r c f fc frest below allarr b A FR EC EP EX KB ED SK LF ENS HBf.
+    specialize (IHb r c f fc frest below [] A FR EC EP HBf). cbn in IHb.
     destruct IHb as (r1 & c1 & fc1 & rest1 & S1 & M1 & EV1 & K1 & KR1).
     exists r1, c1, fc1, rest1. split; [exact S1|]. split.
     { destruct A as ((G0 & EF0 & _) & _). destruct G0 as (C0 & _). destruct M1 as ((C1 & _) & EF1 & _). eapply neq_by_frames; [exact C0|exact C1|].
       rewrite EF1, EF0. cbn. rewrite (forall2_length _ _ _ KR1). lia. }
     split; [exact M1|]. split; [exact EV1|]. split; assumption.
   - (* a round of for, then the rest *) intros var to st s x first body reg s1 y acc' s' HB IHb TV BY HI IHi.
-    intros r c f fc frest below A EC EP EX ED LF ENS HBf.
-    specialize (IHb r c f fc frest below [] A EC EP HBf). cbn in IHb.
+    intros r c f fc frest below A FR EC EP EX ED LF ENS HBf.
+    specialize (IHb r c f fc frest below [] A FR EC EP HBf). cbn in IHb.
     destruct IHb as (r1 & c1 & f1 & rest1 & S1 & A1 & MV1 & P1 & K1).
     inversion K1 as [|fa fc1 ra frest1 Ka Kb Ea Eb]; subst.
     destruct A as ((G0 & EF0 & _) & _).
@@ -1364,6 +1368,7 @@ Proof.
             unfold cur_ns_of, pop_scope. cbn. rewrite <- E1. cbn. rewrite <- E3. exact NS2.
         + split; [cbn; rewrite LB1; lia|rewrite defects_upd_cur; exact D1].
       - split; [cbn; exact LB1|]. exists []. split; [reflexivity|reflexivity]. }
+    { left. reflexivity. }
     { cbn. rewrite (moved_code _ _ MV1). exact EC. } { reflexivity. } { reflexivity. } { cbn. exact XD. }
     { exists i0, code'. split; assumption. }
     { cbn. rewrite (moved_ns _ _ MV1), ENS, (kept_ns _ _ Ka). reflexivity. }
@@ -1374,8 +1379,8 @@ Proof.
       rewrite EF4, EF0. cbn. rewrite (forall2_length _ _ _ KR4), (forall2_length _ _ _ Kb). lia. }
     split; [exact M4|]. split; [exact EV4|]. split; [eapply kept_trans; eassumption|eapply kept_all_trans; eassumption].
   - (* the last round of for *) intros var to st s x first body reg s1 y HB IHb TV BY.
-    intros r c f fc frest below A EC EP EX ED LF ENS HBf.
-    specialize (IHb r c f fc frest below [] A EC EP HBf). cbn in IHb.
+    intros r c f fc frest below A FR EC EP EX ED LF ENS HBf.
+    specialize (IHb r c f fc frest below [] A FR EC EP HBf). cbn in IHb.
     destruct IHb as (r1 & c1 & f1 & rest1 & S1 & A1 & MV1 & P1 & K1).
     inversion K1 as [|fa fc1 ra frest1 Ka Kb Ea Eb]; subst.
     destruct A as ((G0 & EF0 & _) & _).
@@ -1400,8 +1405,8 @@ Proof.
     + rewrite RR1. reflexivity.
     + destruct RR1 as [-> NN]. destruct reg; reflexivity.
   - (* a round of for left by exitWith *) intros var to st s x first body v s1 HB IHb.
-    intros r c f fc frest below A EC EP EX ED LF ENS HBf.
-    specialize (IHb r c f fc frest below [] A EC EP HBf). cbn in IHb.
+    intros r c f fc frest below A FR EC EP EX ED LF ENS HBf.
+    specialize (IHb r c f fc frest below [] A FR EC EP HBf). cbn in IHb.
     destruct IHb as (r1 & c1 & fc1 & rest1 & S1 & M1 & EV1 & K1 & KR1).
     exists r1, c1, fc1, rest1. split; [exact S1|]. split.
     { destruct A as ((G0 & EF0 & _) & _). destruct G0 as (C0 & _). destruct M1 as ((C1 & _) & EF1 & _). eapply neq_by_frames; [exact C0|exact C1|].
